@@ -4,6 +4,10 @@ Properties without a claim entry are listed under not_applicable with the stated
 import json, os
 ROOT = os.path.dirname(os.path.dirname(os.path.abspath(__file__)))
 claims = json.load(open(os.path.join(ROOT, "tools", "claims.json")))
+cd = os.path.join(ROOT, "tools", "claims")
+for f in sorted(os.listdir(cd)):
+    if f.endswith(".json"):
+        claims["claims"][f[:-5]] = json.load(open(os.path.join(cd, f)))
 props = [json.loads(l) for l in open(os.path.join(ROOT, "properties.jsonl"))]
 checks = []
 na = []
